@@ -7,6 +7,10 @@ props = [json.loads(l) for l in open(os.path.join(V, 'properties.jsonl'))]
 TRUST = "Trusted: go/types and go/ssa (x/tools v0.29.0) as a faithful view of /repo's working tree; anchor names (functions, fields) listed in the rule files; std library contracts; reviewed tables rules/exceptions.json. Loops are abstracted to 0/1 iterations in decision-list rules."
 
 CLAIMS = {
+ "C03": dict(
+   technique="sibling-iteration loop discovery on SSA + effect summaries (PEA, callbacks closed over the call graph) for iterator invalidation; table extraction for inline-tag handling; who-writes rule for the flush flag; loop transition extraction for ApplyToModel",
+   text="Decides the structural causes by which a simple paragraph could be cut: (I1) no sibling walk anywhere in the analysed program can have its cursor's link rewritten by a call made before the cursor advances (the WalkNodes defect class), (I2) the nine simple inline tags are inline, never flush or label a block, are never dropped unconditionally, and only SkipNode/StartNode raise the flush flag, (I3) a content block marks every one of its Text elements. Not decided: the classifier's content decision itself.",
+   design="4/C03"),
  "C07": dict(
    technique="path enumeration of the converter visitor with emission events (balanced start/end placeholders), CanBeNested table extraction, loop transition-function extraction of the retainer, clone-as-unit and append-only rules",
    text="Decides the structural necessary conditions of nesting preservation: start and end placeholders are emitted under the same predicate application with the node's own tag name; a nestable element that got its start tag is always walked so its end tag follows; tags are never renamed across the nestable boundary; the retainer's per-element transition (boolean part) is the documented one; data tables are stored, cloned and serialised as one unit from an append-only node list; text rooted at a nestable element emits inner HTML. Not decided: the retainer's integer stack-mark logic and HTML re-parsing.",
